@@ -8,6 +8,7 @@
 //
 // Events are strings and every event is a pure function of the current (canonical) state:
 //   N:<ver>:<f>          spend the first free mature coin into 2 outputs, version ver (2|3), fee code f
+//   NS:<f>               same as N:2 with an additional pay-to-pubkey output (1 legacy sigop = sigop cost 4)
 //   NY:<f>               same, but the coin whose coinbase matures exactly at the next block (reorg => immature)
 //   NL:<f>               same as N:2 with nLockTime = tip height and a non-final sequence (reorg => non-final)
 //   NQ:<f>               same as N:2 with a BIP68 relative height lock that is satisfied exactly at the next block
@@ -209,6 +210,7 @@ inline int RefDiagramCompare(const std::vector<RefChunk>& a, const std::vector<R
     return ab ? 1 : ba ? -1 : 0;
 }
 
+inline CScript P2pkSpk() { return CScript() << std::vector<unsigned char>{0x02, 0x11, 0x11, 0x11, 0x11, 0x11, 0x11, 0x11, 0x11, 0x11, 0x11, 0x11, 0x11, 0x11, 0x11, 0x11, 0x11, 0x11, 0x11, 0x11, 0x11, 0x11, 0x11, 0x11, 0x11, 0x11, 0x11, 0x11, 0x11, 0x11, 0x11, 0x11, 0x11} << OP_CHECKSIG; }
 inline CScript IfScript() { return CScript() << OP_IF << OP_1 << OP_ELSE << OP_1 << OP_ENDIF; }
 inline CScript IfSpk() { return GetScriptForDestination(WitnessV0ScriptHash(IfScript())); }
 
@@ -659,6 +661,14 @@ struct Sim {
             auto tx = MkFee({free[0].op}, {free[0].value}, 1, [&](int64_t vs) { return FeeCode(p[1][0], vs); }, 2, 0, 0xffffffff, /*dust_out=*/true);
             if (!tx) return a;
             a.kind = Act::SUBMIT; a.txs = {tx};
+        } else if (c == "NS") {
+            auto free = FreeCoins(s);
+            if (free.empty()) return a;
+            auto probe = MakeTx({{free[0].op}}, {{free[0].value, OpTrueSpk()}, {10000, P2pkSpk()}});
+            auto fee = FeeCode(p[1][0], RefVsize(CTransaction(probe)));
+            if (!fee) return a;
+            auto m = MakeTx({{free[0].op}}, {{free[0].value - 10000 - *fee, OpTrueSpk()}, {10000, P2pkSpk()}});
+            a.kind = Act::SUBMIT; a.txs = {MakeTransactionRef(m)};
         } else if (c == "W") {
             const BaseCoin* wc = nullptr;
             for (auto& x : wcoins) if (s.height + 1 - x.height >= COINBASE_MATURITY && n.GetCoin(x.op) && !pool().isSpent(x.op)) { wc = &x; break; }
@@ -759,6 +769,7 @@ struct Sim {
         auto S = [](char c) { return std::string(1, c); };
         if (o.has("N")) for (char f : o.fees) cand.push_back("N:2:" + S(f));
         if (o.has("N3")) for (char f : (o.fees3.empty() ? o.fees : o.fees3)) cand.push_back("N:3:" + S(f));
+        if (o.has("NS")) for (char f : o.fees_special) cand.push_back("NS:" + S(f));
         if (o.has("NY")) for (char f : o.fees_special) cand.push_back("NY:" + S(f));
         if (o.has("NL")) for (char f : o.fees_special) cand.push_back("NL:" + S(f));
         if (o.has("NQ")) for (char f : o.fees_special) cand.push_back("NQ:" + S(f));
